@@ -2,5 +2,7 @@
 EXTENDS Decl
 OptNamesDef == {<<"a">>, <<"b">>, <<"a", "b">>, <<"b", "a">>}
 ArgNamesDef == {<<"X">>, <<"Y">>, <<"X", "1", "_">>, <<"x">>, <<"1", "X">>, <<"O", "P", "T", "I", "O", "N", "S">>,
-                <<"X", "-", "Y">>, <<"X", "y">>, <<"_", "X">>, <<"X", "_", "Y">>}
+                <<"X", "-", "Y">>, <<"X", "y">>, <<"_", "X">>, <<"X", "_", "Y">>,
+                \* "~" stands for a character outside ASCII (the harness sends U+0142, whose low byte is 'B'): only ASCII goes through TLC
+                <<"X", "~">>, <<"~">>}
 =============================================================================
